@@ -19,10 +19,18 @@ fn run_repl() {
         buffer.clear();
         print!(">>> ");
         io::stdout().flush().unwrap();
-        // end of input: the session is over
-        if io::stdin().read_line(&mut buffer).unwrap() == 0 {
-            println!();
-            return;
+        match io::stdin().read_line(&mut buffer) {
+            // end of input: the session is over
+            Ok(0) => {
+                println!();
+                return;
+            }
+            Ok(_) => (),
+            // a line that can not be read (it is not UTF-8, say) is reported and skipped
+            Err(e) => {
+                eprintln!("{e}");
+                continue;
+            }
         }
 
         // a line that does not parse or compile is reported like one that fails while running
@@ -53,7 +61,14 @@ fn run_repl() {
 }
 
 fn run_file(f: &Path) {
-    let program = fs::read_to_string(f).unwrap();
+    // a file that can not be read (it does not exist, it is not UTF-8) is reported
+    let program = match fs::read_to_string(f) {
+        Ok(program) => program,
+        Err(e) => {
+            eprintln!("{}: {e}", f.display());
+            return;
+        }
+    };
 
     match eval(&program) {
         Ok(obj) => println!("{obj}"),
